@@ -156,7 +156,11 @@ type outcome struct {
 	ambiguous bool
 }
 
-func dial(c config, p *probe, inspect bool) *outcome {
+func dial(c config, p *probe, inspect bool) *outcome { return dialLife(c, p, inspect, nil, nil) }
+
+// dialLife: like dial, with an action performed on the established connection (stop /
+// restart of protocol instances) and a probe sent AFTER it.
+func dialLife(c config, p *probe, inspect bool, act func(*ouroboros.Connection, *muxpeer.RawPeer, *outcome), late *probe) *outcome {
 	o := &outcome{}
 	ca, cb := net.Pipe()
 	defer ca.Close()
@@ -262,7 +266,17 @@ func dial(c config, p *probe, inspect bool) *outcome {
 		case <-time.After(longWait):
 		}
 	}
-	if p != nil && o.firstErr == nil {
+	if act != nil && o.hung == "" {
+		if p != nil {
+			<-wdone
+		}
+		act(r.conn, peer, o)
+	}
+	if late != nil && o.hung == "" {
+		// sent on its own: completes when the muxer consumed it, fails if the connection is gone
+		_ = peer.WriteChunks([][]byte{muxpeer.Frame(4, late.Raw, vh.UnHex(late.Payload))}, 2*longWait)
+	}
+	if (p != nil || late != nil) && o.firstErr == nil && o.hung == "" {
 		// the fence: a zero-length header written on its own.  net.Pipe completes a
 		// Write only when the reader consumed it: the muxer consumes the fence iff its
 		// read loop is still running, i.e. iff it did NOT reject the probe; after a
@@ -406,6 +420,183 @@ func introspect(conn *ouroboros.Connection, o *outcome) (ok bool) {
 		}
 	}
 	return true
+}
+
+// readRegistry returns the muxer's current receiver table.
+func readRegistry(conn *ouroboros.Connection) (regs []ep, ok bool) {
+	defer func() {
+		if r := recover(); r != nil {
+			ok = false
+		}
+	}()
+	tmp := &outcome{}
+	mv := reflect.ValueOf(conn.Muxer()).Elem()
+	mtx := mv.FieldByName("protocolReceiversMutex")
+	recv := mv.FieldByName("protocolReceivers")
+	if !mtx.IsValid() || !recv.IsValid() {
+		return nil, false
+	}
+	m := (*sync.Mutex)(unsafe.Pointer(mtx.UnsafeAddr()))
+	m.Lock()
+	defer m.Unlock()
+	for _, k := range recv.MapKeys() {
+		inner := recv.MapIndex(k)
+		for _, rk := range inner.MapKeys() {
+			switch muxer.ProtocolRole(rk.Uint()) {
+			case muxer.ProtocolRoleInitiator:
+				tmp.regs = append(tmp.regs, ep{uint16(k.Uint()), false})
+			case muxer.ProtocolRoleResponder:
+				tmp.regs = append(tmp.regs, ep{uint16(k.Uint()), true})
+			}
+		}
+	}
+	return tmp.regs, true
+}
+
+// side returns the Client or Server object (a pointer to a struct embedding
+// *protocol.Protocol) of the mini-protocol with this id, found through the exported
+// getters of Connection.
+func side(conn *ouroboros.Connection, pid uint16, server bool) (sv reflect.Value, ok bool) {
+	defer func() {
+		if r := recover(); r != nil {
+			ok = false
+		}
+	}()
+	cv := reflect.ValueOf(conn)
+	name := map[bool]string{false: "Client", true: "Server"}[server]
+	for i := 0; i < cv.NumMethod(); i++ {
+		mt := cv.Type().Method(i)
+		if mt.Type.NumIn() != 1 || mt.Type.NumOut() != 1 || mt.Type.Out(0).Kind() != reflect.Ptr || mt.Type.Out(0).Elem().Kind() != reflect.Struct || mt.Name == "Handshake" {
+			continue
+		}
+		if _, has := mt.Type.Out(0).Elem().FieldByName(name); !has {
+			continue
+		}
+		obj := cv.Method(i).Call(nil)[0]
+		if obj.IsNil() {
+			continue
+		}
+		x := obj.Elem().FieldByName(name)
+		if x.Kind() != reflect.Ptr || x.IsNil() {
+			continue
+		}
+		pv := x.Elem().FieldByName("Protocol")
+		if !pv.IsValid() || pv.IsNil() {
+			continue
+		}
+		if uint16(pv.Elem().FieldByName("config").FieldByName("ProtocolId").Uint()) == pid {
+			return x, true
+		}
+	}
+	return reflect.Value{}, false
+}
+
+// protoPtr atomically loads the embedded *protocol.Protocol of a Client/Server object and
+// says whether that instance has been started.
+func protoPtr(x reflect.Value) (ptr unsafe.Pointer, started bool) {
+	f := x.Elem().FieldByName("Protocol")
+	ptr = atomic.LoadPointer((*unsafe.Pointer)(unsafe.Pointer(f.UnsafeAddr())))
+	if ptr == nil {
+		return nil, false
+	}
+	q := reflect.NewAt(f.Type().Elem(), ptr).Elem().FieldByName("sendQueueChan")
+	return ptr, atomic.LoadPointer((*unsafe.Pointer)(unsafe.Pointer(q.UnsafeAddr()))) != nil
+}
+
+// ---- lifecycle: stop / restart one role on a duplex connection, then the other role
+// must still be registered and reachable
+
+func runLife(c *vh.Ctx, cf *vh.CaseFile, cfg config, pid uint16, restart bool) {
+	kind := map[bool]string{false: "client-stop", true: "server-restart"}[restart]
+	rp := map[string]any{"cfg": cfg, "life": kind, "pid": pid}
+	c.Begin(rp)
+	var regs []ep
+	regOK, actErr := false, ""
+	act := func(conn *ouroboros.Connection, peer *muxpeer.RawPeer, o *outcome) {
+		x, ok := side(conn, pid, restart)
+		if !ok {
+			actErr = "introspection"
+			return
+		}
+		if !restart {
+			// Client.Stop(): the local initiator instance goes away (it may tell the peer Done)
+			done := make(chan struct{})
+			go func() { x.MethodByName("Stop").Call(nil); close(done) }()
+			select {
+			case <-done:
+			case <-time.After(longWait):
+				o.hung = "Client.Stop did not return"
+				return
+			}
+		} else {
+			// the peer's initiator says Done: the local server restarts (Stop, re-create, Start)
+			old, _ := protoPtr(x)
+			if err := peer.WriteChunks([][]byte{muxpeer.Frame(3, pid, vh.UnHex(donePayload[pid]))}, 2*longWait); err != nil {
+				actErr = "the Done segment was refused"
+				return
+			}
+			dl := time.Now().Add(longWait)
+			for {
+				cur, started := protoPtr(x)
+				if cur != old && started {
+					break
+				}
+				if time.Now().After(dl) {
+					o.hung = "the server did not restart after the peer's Done"
+					return
+				}
+				time.Sleep(200 * time.Microsecond)
+			}
+		}
+		regs, regOK = readRegistry(conn)
+	}
+	var late *probe
+	if pl, ok := donePayload[pid]; ok {
+		late = &probe{Raw: pid, Payload: pl}
+	}
+	o := dialLife(cfg, nil, false, act, late)
+	canon, _ := json.Marshal(rp)
+	c.Res.Count("life/"+string(canon), true, "life:"+kind)
+	if o.hung != "" {
+		c.Res.Violate("monitor", fmt.Sprintf("hang:life:%s:%d", kind, pid), o.hung, rp)
+		return
+	}
+	if o.setupErr != nil {
+		c.Res.Violate("monitor", "setup-failed", fmt.Sprintf("NewConnection failed after a valid handshake: %v", o.setupErr), rp)
+		return
+	}
+	if actErr == "introspection" || !regOK && actErr == "" {
+		c.Res.Notes = append(c.Res.Notes, "introspection unavailable: lifecycle case skipped")
+		return
+	}
+	if actErr != "" {
+		c.Res.Violate("monitor", fmt.Sprintf("life-action-failed:%s:%d", kind, pid), actErr, rp)
+		return
+	}
+	has := map[ep]bool{}
+	for _, e := range regs {
+		has[e] = true
+	}
+	// monitor: the role that was NOT stopped is still registered and, where we can talk to it, reachable
+	if !restart && !has[ep{pid, true}] {
+		c.Res.Violate("monitor", fmt.Sprintf("sibling-role-unregistered:%d", pid), fmt.Sprintf("after Client.Stop of protocol %d its responder is no longer registered with the muxer", pid), rp)
+	}
+	if restart && !has[ep{pid, false}] {
+		c.Res.Violate("monitor", fmt.Sprintf("sibling-role-unregistered:%d", pid), fmt.Sprintf("after the server of protocol %d restarted on the peer's Done its initiator is no longer registered with the muxer", pid), rp)
+	}
+	if late != nil && !o.fenceRead {
+		c.Res.Violate("monitor", fmt.Sprintf("responder-unreachable-after-%s:%d", kind, pid), fmt.Sprintf("a request for the responder of protocol %d failed the connection after the %s: %v", pid, kind, o.firstErr), rp)
+	}
+	ops := fmt.Sprintf("[ClientStop %d]", pid)
+	if restart {
+		ops = fmt.Sprintf("[ServerRestart %d]", pid)
+	}
+	probes := "[]"
+	if late != nil {
+		probes = fmt.Sprintf("[(%d, %s)]", late.Raw, vh.Bool(o.fenceRead))
+	}
+	cf.Add(fmt.Sprintf("CLife %s %s %s %s", cfg.coq(), ops, coqEps(regs), probes), rp)
+	c.Res.TracesValidated++
 }
 
 // ---- probes
@@ -604,6 +795,23 @@ func run(c *vh.Ctx) error {
 		}
 		for _, p := range probesFor(cfg, c.Rng) {
 			runProbe(c, cf, cfg, p)
+		}
+	}
+	// lifecycle on duplex node-to-node connections, every duplex-capable protocol
+	for _, server := range []bool{false, true} {
+		for _, v := range []uint16{7, 11, 13, 15} {
+			cfg := config{Server: server, Kind: "ntn", FullDuplex: true, PeerDuplex: true, Version: v}
+			for _, pid := range []uint16{2, 3, 4, 8, 10, 18, 19, 20} {
+				if !specProtocol(cfg, pid) {
+					continue
+				}
+				if pid != 8 { // the keep-alive client is not running without WithKeepAlive
+					runLife(c, cf, cfg, pid, false)
+				}
+				if pid == 2 || pid == 3 || pid == 10 { // servers that restart on Done and whose Done we can encode
+					runLife(c, cf, cfg, pid, true)
+				}
+			}
 		}
 	}
 	cf.Flush()
